@@ -10,6 +10,7 @@ package main
 
 import (
 	"encoding/binary"
+	"encoding/hex"
 	"flag"
 	"fmt"
 	"os"
@@ -544,6 +545,7 @@ func modeBuild(seed uint64, n int, out *sx.Out) {
 	var prevBuilt []byte
 	prevCopy := ""
 	for i := 0; i < n; i++ {
+		out.Begin(map[string]interface{}{"mode": "modeBuild", "case": i})
 		r := sx.Fork(seed, uint64(i))
 		if r.Chance(1, 8) {
 			// file watch
@@ -747,6 +749,7 @@ func guarded(f func() (string, error)) (outcome string, detail string) {
 func modeTotal(seed uint64, n int, out *sx.Out) {
 	words := []uint32{0, 1, 63, 64, 65, 0x7fffffff, 0x80000000, 0xffffffff}
 	for i := 0; i < n; i++ {
+		out.Begin(map[string]interface{}{"mode": "modeTotal", "case": i})
 		r := sx.Fork(seed, uint64(i)+1<<32)
 		// a valid rule to start from
 		var b []byte
@@ -813,6 +816,7 @@ func modeTotal(seed uint64, n int, out *sx.Out) {
 				m[j] = byte(r.Next())
 			}
 		}
+		out.Begin(map[string]interface{}{"mode": "modeTotal", "case": i, "call": "rule.ToCommandLine(wire, false)", "wire_hex": hex.EncodeToString(m)})
 		oc, detail := guarded(func() (string, error) { return rule.ToCommandLine(rule.WireFormat(m), false) })
 		out.Case(fmt.Sprintf("TWire %s %s", sx.Hx(m), oc), map[string]interface{}{"case": i, "mutation_kind": kind, "len": len(m), "outcome": oc, "detail": detail}, "wire/"+oc, oc == "OOk" || oc == "OErr")
 	}
@@ -892,6 +896,7 @@ func modeTotal(seed uint64, n int, out *sx.Out) {
 					sr.Keys = []string{"k"}
 				}
 				var built []byte
+				out.Begin(map[string]interface{}{"mode": "modeTotal", "call": "rule.Build(rule)", "rule": fmt.Sprintf("%+v", *sr)})
 				oc, detail := guarded(func() (string, error) { b, err := rule.Build(sr); built = b; return "", err })
 				bs := "None"
 				if oc == "OOk" {
@@ -915,6 +920,7 @@ func modeTotal(seed uint64, n int, out *sx.Out) {
 				sr := &rule.SyscallRule{Type: rule.AppendSyscallRuleType, List: list, Action: "always", Syscalls: []string{"1"},
 					Filters: []rule.FilterSpec{{Type: rule.ValueFilterType, LHS: f, Comparator: op, RHS: rhs}}}
 				var built []byte
+				out.Begin(map[string]interface{}{"mode": "modeTotal", "call": "rule.Build(rule)", "rule": fmt.Sprintf("%+v", *sr)})
 				oc, detail := guarded(func() (string, error) { b, err := rule.Build(sr); built = b; return "", err })
 				bs := "None"
 				if oc == "OOk" {
@@ -942,6 +948,7 @@ func modeTotal(seed uint64, n int, out *sx.Out) {
 			}
 		}
 		line := sb.String()
+		out.Begin(map[string]interface{}{"mode": "modeTotal", "case": i, "call": "flags.Parse(line) then rule.Build", "line": line})
 		oc, detail := guarded(func() (string, error) {
 			ru, err := flags.Parse(line)
 			if err == nil && ru != nil {
@@ -1004,6 +1011,7 @@ func modeFlags(seed uint64, n int, out *sx.Out) {
 	}
 	strays := []string{"foo", "bar=1", "exit,always", "-", "uid=0", "", "", " ", "''"}
 	for i := 0; i < n; i++ {
+		out.Begin(map[string]interface{}{"mode": "modeFlags", "case": i})
 		r := sx.Fork(seed, uint64(i)+4<<32)
 		var items []fitem
 		kind := r.Intn(10)
